@@ -82,6 +82,11 @@ func runC11(s *core.Sim, tier string) RunInfo {
 	var topicA *pubsub.Topic
 	var sB, sC header.Subscription[*H]
 	lateVerifier := s.Tape.Coin("late-verifier", 1, 6)
+	// configuration knob: the Subscriber under test with or without its metrics
+	withMetrics := s.Tape.Coin("subscriber-metrics", 1, 2)
+	if withMetrics {
+		s.Probe("subscriber-with-metrics")
+	}
 	// per-payload verifier script at B
 	var vmu sync.Mutex
 	script := map[string]string{}
@@ -115,7 +120,11 @@ func runC11(s *core.Sim, tier string) RunInfo {
 		if psC, setupErr = mk(2); setupErr != nil {
 			return
 		}
-		if subB, setupErr = p2p.NewSubscriber[*H](psB, gMsgID, p2p.WithSubscriberNetworkID(xNetworkID)); setupErr != nil {
+		optsB := []p2p.SubscriberOption{p2p.WithSubscriberNetworkID(xNetworkID)}
+		if withMetrics {
+			optsB = append(optsB, p2p.WithSubscriberMetrics())
+		}
+		if subB, setupErr = p2p.NewSubscriber[*H](psB, gMsgID, optsB...); setupErr != nil {
 			return
 		}
 		if subC, setupErr = p2p.NewSubscriber[*H](psC, gMsgID, p2p.WithSubscriberNetworkID(xNetworkID)); setupErr != nil {
@@ -148,6 +157,7 @@ func runC11(s *core.Sim, tier string) RunInfo {
 		return RunInfo{}
 	}
 	verifier := func(_ context.Context, h *H) error {
+		_ = h.Hash() // what a verifier does first: it names the header in its log
 		b, _ := h.MarshalBinary()
 		vmu.Lock()
 		k := script[msgKey(b)]
